@@ -46,7 +46,7 @@ func withTimeout(f func()) (hang bool) {
 func decCase(c *hx.Ctx, proto string, data []byte, how string) {
 	var o framegen.Outcome
 	out := ""
-	if withTimeout(func() { o = framegen.DecodeOnce(proto, data) }) {
+	if withTimeout(func() { o = c08pDecodeOnce(proto, data) }) {
 		out = "hang"
 	} else if o.Class == "panic" {
 		out = "panic"
@@ -64,7 +64,7 @@ func kvCase(c *hx.Ctx, block []byte, how string) {
 	var err error
 	var panicked bool
 	if withTimeout(func() {
-		_, panicked = hx.Safe(func() { err = xprotocol.DecodeHeader(append([]byte(nil), block...), &h) })
+		_, panicked = hx.Safe(func() { err = xprotocol.DecodeHeader(hx.Exact(block), &h) })
 	}) {
 		out = "hang"
 	} else if panicked {
@@ -122,6 +122,14 @@ func Run(c *hx.Ctx) {
 			dmetaCases(c)
 		case "pool":
 			poolCases(c)
+		case "mat":
+			matCases(c)
+		case "h2pay":
+			h2payCases(c)
+		case "h2hl":
+			h2hlCases(c)
+		case "h2body":
+			h2bodyCases(c)
 		}
 		return
 	}
@@ -224,6 +232,14 @@ func Run(c *hx.Ctx) {
 		binary.BigEndian.PutUint16(nb[f.Fields[1].Off:], uint16(len(blk)))
 		dec(f.Proto, nb, "bolt-bad-block")
 	}
+	// [c08p10] every registered protocol matcher on prefixes / guard lengths / random bytes, capacity == length
+	matCases(c)
+	// [c08p10] the HTTP/2 frame payload parsers: type × length × flags × stream id × pad octet, capacity == length
+	h2payCases(c)
+	// [c08p10] the header list of readMetaFrame at its MAX_HEADER_LIST_SIZE budget
+	h2hlCases(c)
+	// [c08p10] the stream layer's body buffer against the announced content-length
+	h2bodyCases(c)
 	// the decode loop of the real Dispatch under a Decode-call counter and a watchdog
 	dispCases(c)
 	// the decode loops of the real HTTP/2 server / client Dispatch under a Decode-call recorder and a watchdog
@@ -297,7 +313,7 @@ func h2Case(c *hx.Ctx, data []byte, how string) {
 		ctx := framegen.Ctx()
 		pre := buffer.NewIoBufferBytes([]byte(mhttp2.ClientPreface))
 		p.Decode(ctx, pre) // consumes the preface, answers ErrAGAIN
-		buf := buffer.NewIoBufferBytes(append([]byte(nil), data...))
+		buf := buffer.NewIoBufferBytes(hx.Exact(data)) // [c08p10] capacity == length: a read behind the buffered bytes panics
 		before := buf.Len()
 		_, panicked = hx.Safe(func() { frame, err = p.Decode(ctx, buf) })
 		drained = before - buf.Len()
@@ -429,7 +445,7 @@ func hpackCase(c *hx.Ctx, maxStr int, block []byte, how string) {
 	if withTimeout(func() {
 		d := hpack.NewDecoder(4096, nil)
 		d.SetMaxStringLength(maxStr)
-		_, panicked = hx.Safe(func() { fields, err = d.DecodeFull(append([]byte(nil), block...)) })
+		_, panicked = hx.Safe(func() { fields, err = d.DecodeFull(hx.Exact(block)) })
 	}) {
 		out = "hang"
 	} else if panicked {
